@@ -258,7 +258,7 @@ def case_B(draw, files):
 def cases_B_fill(tier):
     """deterministic part of B: every file x every kind with all tokens replaced"""
     def g():
-        files = GL.shipped() if tier != 'quick' else _small_files(450000)
+        files = GL.shipped() if tier != 'quick' else _small_files(600000)
         for rel in files:
             for kind in KINDS:
                 yield {'o': 'B', 'file': rel, 'kind': kind, 'fill': 1, 'every': 1, 'off': 0}
